@@ -134,8 +134,12 @@ func (c *Ctx) Roles() *Roles {
 		if rn == "service" {
 			ngo := 0
 			for _, call := range ir.Calls(fn) {
-				if _, ok := call.(*ssa.Go); ok {
-					ngo++
+				if g, ok := call.(*ssa.Go); ok {
+					if k := len(c.goTargets(g)); k > 1 {
+						ngo += k
+					} else {
+						ngo++
+					}
 				}
 			}
 			if ngo >= 3 && r.Start == nil {
@@ -186,6 +190,21 @@ func (c *Ctx) Roles() *Roles {
 			r.Accept = fn
 		}
 	}
+	// authentication moved into a helper of the accept function: the accept function is the Server method above it
+	// that also starts the service
+	for i := 0; i < 3 && r.Accept != nil && r.Start != nil; i++ {
+		starts := false
+		for _, call := range ir.Calls(r.Accept) {
+			if call.Common().StaticCallee() == r.Start {
+				starts = true
+			}
+		}
+		callers := c.P.Callers(r.Accept)
+		if starts || len(callers) != 1 || recvNamed(callers[0].Parent()) != "Server" {
+			break
+		}
+		r.Accept = callers[0].Parent()
+	}
 	if r.Start != nil {
 		// the subscriber callback of the connection: a closure or a bound method stored into the onpub field
 		for _, b := range r.Start.Blocks {
@@ -227,21 +246,57 @@ func (c *Ctx) Roles() *Roles {
 			if !ok {
 				continue
 			}
-			t := g.Common().StaticCallee()
-			if t == nil {
-				continue
-			}
-			switch {
-			case r.Handler != nil && c.reaches(t, r.Handler, 3):
-				r.Processor = t
-			case len(c.calls(t, pkgService, "buffer", "ReadFrom")) > 0:
-				r.Receiver = t
-			case len(c.calls(t, pkgService, "buffer", "WriteTo")) > 0:
-				r.Sender = t
+			for _, t := range c.goTargets(g) {
+				switch {
+				case r.Handler != nil && c.reaches(t, r.Handler, 3):
+					r.Processor = t
+				case len(c.calls(t, pkgService, "buffer", "ReadFrom")) > 0:
+					r.Receiver = t
+				case len(c.calls(t, pkgService, "buffer", "WriteTo")) > 0:
+					r.Sender = t
+				}
 			}
 		}
 	}
 	return r
+}
+
+// goTargets: the functions a go statement starts. A static callee is itself; a function value taken from a table
+// of bound methods (`for _, w := range [...]func(){svc.a, svc.b} { go w() }`) is every method in the table.
+func (c *Ctx) goTargets(g *ssa.Go) []*ssa.Function {
+	if t := g.Common().StaticCallee(); t != nil {
+		if strings.HasSuffix(t.Name(), "$bound") {
+			if m := boundMethod(t); m != nil {
+				return []*ssa.Function{m}
+			}
+		}
+		return []*ssa.Function{t}
+	}
+	if g.Common().IsInvoke() {
+		return nil
+	}
+	var out []*ssa.Function
+	for _, t := range c.P.Callees(g) {
+		if strings.HasSuffix(t.Name(), "$bound") {
+			if m := boundMethod(t); m != nil {
+				t = m
+			}
+		}
+		if c.P.InLib(t) {
+			out = append(out, t)
+		}
+	}
+	return out
+}
+
+// boundMethod: the method a bound-method wrapper calls.
+func boundMethod(w *ssa.Function) *ssa.Function {
+	for _, call := range ir.Calls(w) {
+		if callee := call.Common().StaticCallee(); callee != nil {
+			return callee
+		}
+	}
+	return nil
 }
 
 // Need reports unresolved roles as inconclusive and returns false if any is missing.
